@@ -32,10 +32,10 @@ CLAIMS = {
     "C06": dict(technique="pipeline extraction of Nickname prepare/enforce and of the closure handed to stabilize, against RFC 8266 §2", category="other", text="enforce must be stabilize(input, closure) returned unchanged and the closure body must be the whole rule set (validate, space rule, NFKC, non-empty; no case mapping). Fixed point / iteration bound are C13, the space rule C12.", ref="§4 C06"),
     "C07": dict(technique="pipeline extraction of the four compare bodies and the static-form forwarders", category="other", text="compare must be enforce(a)? ; enforce(b)? ; content equality of the two results (first operand's error first, never Ok after an error); Nickname via stabilize with the comparison rule set on both operands; the static forms forward (s1, s2) in order.", ref="§4 C07"),
     "C08": dict(technique="must-pass-through check on the extracted enforce pipelines (own-class validation precedes only whitelisted transforms; Nickname returns only stabilize's fixed point)", category="other", text="PARTLY CLAIMED: structural necessary conditions only. NOT decided: whether to_lowercase/NFC/NFKC (library Unicode data) can produce DISALLOWED/UNASSIGNED characters from valid ones, and idempotence of the transform chain for every string.", ref="§4 C08"),
-    "C09": dict(technique="loop-automaton extraction of satisfy_bidi_rule over the 23 bidi classes, has_rtl class set, wrapper decision table, product-construction language comparison with the DFA of RFC 5893's six conditions; bidi table compared with UnicodeData 16.0.0 on every code point", category="other", text="The composed language (no R/AL/AN or Bidi rule satisfied) is compared with the RFC for ALL class words at once; a difference yields a shortest distinguishing word. One known finding (D3, interior NSM in RTL labels, enshrined by the repository's tests) is keyed by a language K; any deviation outside K is a violation.", ref="§4 C09"),
+    "C09": dict(technique="loop-automaton extraction of satisfy_bidi_rule over the 23 bidi classes, has_rtl and bidi_class_cp decided per code point against the folded table (paths × intervals), wrapper decision table, product-construction language comparison with the DFA of RFC 5893's six conditions; bidi table compared with UnicodeData 16.0.0 on every code point", category="other", text="The composed language (no R/AL/AN or Bidi rule satisfied) is compared with the RFC for ALL class words at once; a difference yields a shortest distinguishing word. One known finding (D3, interior NSM in RTL labels, enshrined by the repository's tests) is keyed by a language K; any deviation outside K is a violation.", ref="§4 C09"),
     "C10": dict(technique="copy-on-first-change discipline: trigger class set, untouched-input branch, prefix/suffix split, one-state loop transducer over case classes read from DerivedCoreProperties.txt", category="other", text="Decides for all strings that every character with a lowercase mapping is mapped (whole mapping) wherever it stands: the trigger set must contain every changing class and the loop must be stateless. std's predicates are bound to the UCD properties by their documentation.", ref="§4 C10"),
     "C11": dict(technique="table = <wide>/<narrow> decompositions of UnicodeData 16.0.0 (every code point), idempotence and scalar-ness of values, lookup semantics, copy-on-first-change discipline over {mapped, other}", category="other", text="Data clause decided on every code point; code clause decided for all strings by the extracted one-state transducer whose trigger is computed from the mapper itself.", ref="§4 C11"),
-    "C12": dict(technique="password rule: first-change discipline over {N,S,Z}; nickname rule: scan DFA + rebuild transducers extracted from MIR, composed and compared with the RFC 8266 §2.3 reference transducer by product exploration; Zs table compared with UnicodeData 16.0.0", category="other", text="Equivalence with the reference mapping is decided for ALL words over the class alphabet (the code can only distinguish non-space / U+0020 / other Zs — anything finer is reported); a difference yields a shortest distinguishing word.", ref="§4 C12"),
+    "C12": dict(technique="password rule: first-change discipline over {N,S,Z}; nickname rule: scan DFA + rebuild transducers extracted from MIR, composed and compared with the RFC 8266 §2.3 reference transducer by product exploration; is_space_separator bound to the folded Zs table for every code point (paths × intervals); Zs table compared with UnicodeData 16.0.0", category="other", text="Equivalence with the reference mapping is decided for ALL words over the class alphabet (the code can only distinguish non-space / U+0020 / other Zs — anything finer is reported); a difference yields a shortest distinguishing word.", ref="§4 C12"),
     "C13": dict(
         technique="abstract interpretation of stabilize's MIR with the rule function as a 3-answer oracle (E/=/≠); exhaustive path enumeration compared with the RFC 8264 §7 contract",
         category="other",
@@ -49,13 +49,13 @@ CLAIMS = {
         ref="§4 C14",
     ),
     "C15": dict(
-        technique="constant-data comparison of every emitted table (folded from initialiser MIR) with an independent UCD reader + table-order rule; liveness/dominator/field-effect rules on the generators' MIR (flush on exit, sort before merge, accumulator consumed)",
+        technique="constant-data comparison of every emitted table (folded from initialiser MIR) with an independent UCD reader + table-order rule; liveness/dominator/field-effect rules on the generators' MIR; inductive abstract interpretation of the accumulators over linear forms (state shapes relative to the last code point, generic step, coverage monitors) for the gap generator, the merge loop, the bidi run compression and the First/Last pairing",
         category="other",
-        text="PARTLY CLAIMED. Decided completely for the two pinned inputs: all 47 tables are searchable (L2) and equal the UCD on every code point (L5). Decided for all inputs only as necessary structural conditions of the generators (pending run live on loop exhaustion, sort dominates merge, every accumulated field consumed by generate_code). NOT decided: values computed by run compression / gap tracking for arbitrary entry sequences.",
+        text="PARTLY CLAIMED. Pinned inputs: all 47 tables are searchable (L2) and equal the UCD on every code point (L5). All ascending inputs: UnassignedTableGen emits exactly the complement, get_codepoints_vector and BidiClassGen::compress_into_ranges emit rows that cover exactly the input entries (each code point once, with its class), UnicodeData::parse pairs First/Last — each proved by base case + generic step + finish over a finite set of state shapes; plus the structural rules (flush on exit, sort before merge, accumulator consumed, entry-kind agreement). NOT decided: ucd-parse's own line grammar, inputs that are not ascending, the per-entry set generators beyond entry-kind agreement.",
         ref="§4 C15",
     ),
-    "C16": dict(technique="effect / ownership analysis: statics and type fields (Freeze, Send, Sync, size, Copy from the type checker), deny-listed callees over the resolved call-graph closure of the exported API, static-form forwarders by abstract interpretation; positive-control crate for every zero-count rule", category="other", text="No hidden state (immutable Freeze statics except lazy cells of zero-sized profiles), single-valued profile/class types, no effectful callee reachable, static forms forward unchanged: every exported function is then a pure function of its arguments for all histories and schedules.", ref="§4 C16"),
-    "C17": dict(technique="field wiring and name table by abstract interpretation with the field parsers as oracles; regex group names vs Captures indexing; line-number discipline by provenance; panic-freedom of the parse paths (TotalWorld)", category="other", text="PARTLY CLAIMED: wiring, name table, selector rules, group names, line numbers and panic-freedom are decided; NOT decided: the languages of the two regular expressions and of ucd_parse::Codepoint::from_str.", ref="§4 C17"),
+    "C16": dict(technique="effect / ownership analysis: statics and type fields (Freeze, Send, Sync, size, Copy from the type checker), deny-listed callees and user-written unsafe blocks over the resolved call-graph closure of the exported API, representation-blindness (no result depends on the Cow variant of a string unless both variants are shown to return the same content), static-form forwarders by abstract interpretation; positive-control crate for every zero-count rule", category="other", text="No hidden state (immutable Freeze statics except lazy cells of zero-sized profiles), single-valued profile/class types, no effectful callee reachable, static forms forward unchanged: every exported function is then a pure function of its arguments for all histories and schedules.", ref="§4 C16"),
+    "C17": dict(technique="field wiring and name table by abstract interpretation with the field parsers as oracles; regex group names vs Captures indexing; CsvLineParser::next interpreted over an abstract reader (line numbers, header skip, error stamping, and the text handed to the row parser with the line terminator as an oracle); panic-freedom of the parse paths (TotalWorld)", category="other", text="PARTLY CLAIMED: wiring, name table, selector rules, group names, line numbers and panic-freedom are decided; NOT decided: the languages of the two regular expressions and of ucd_parse::Codepoint::from_str.", ref="§4 C17"),
     "C18": dict(
         technique="abstract interpretation of the 12 hand-written comparison methods over the order-type domain (11 order types × 12 methods, exhaustive), after checking that compared values flow only into comparisons",
         category="other",
